@@ -5,6 +5,8 @@ package trace
 //     goroutines and are stopped at gates (the white-box `executionTracerTaskEnd` hook, SpanProcessors whose OnEnd
 //     blocks); after every op each End goroutine is blocked at a gate or has returned (exact hand-shake, no timing).
 //     Replayed label by label on the LTS. Line format: /verif/lean/Otel/C10/Main.lean.
+//   TestVerifC10AttrRace: known finding F36 (snapshot reader vs Attributes() on the ended span), reproduced in a
+//     race-instrumented CHILD process so that its report stays out of this process's output; observation only.
 //   TestVerifC10Hist: free-running stress histories (2–16 goroutines, -race) with linearizable stamps, judged by the
 //     Spec oracle only.
 // Uses the op/snapshot wire helpers of the C04 harness (zz_verif_c04_span_test.go, injected with this file).
@@ -15,6 +17,8 @@ import (
 	"errors"
 	"fmt"
 	"io"
+	"os"
+	"os/exec"
 	"runtime"
 	rtrace "runtime/trace"
 	"sort"
@@ -726,5 +730,148 @@ func TestVerifC10Hist(t *testing.T) {
 	}
 	for _, l := range res {
 		out.Line("%s", l)
+	}
+}
+
+// ---------------------------------------------------------------- F36: snapshot reader vs Attributes() on the ended span
+
+// Line: `attrrace <gen> <n attrs> <dup keys> <concurrent Attributes() 0|1> => race | norace | race:other | err`
+// The scenario runs in a child process (this test binary, race-instrumented because the leg has "race": true): the
+// child's `WARNING: DATA RACE` must not reach the parent's output, it becomes the observation.
+
+type c10ARProc struct {
+	rw   ReadWriteSpan
+	snap ReadOnlySpan
+}
+
+func (p *c10ARProc) OnStart(_ context.Context, s ReadWriteSpan) { p.rw = s }
+func (p *c10ARProc) OnEnd(s ReadOnlySpan)                       { p.snap = s }
+func (p *c10ARProc) Shutdown(context.Context) error             { return nil }
+func (p *c10ARProc) ForceFlush(context.Context) error           { return nil }
+
+func TestVerifC10AttrRaceChild(t *testing.T) {
+	spec := os.Getenv("VERIF_C10_ATTRRACE")
+	if spec == "" {
+		t.Skip("child of TestVerifC10AttrRace only")
+	}
+	f := strings.Split(spec, ",")
+	n, _ := strconv.Atoi(f[0])
+	dup, _ := strconv.Atoi(f[1])
+	conc := f[2] == "1"
+	pp := &c10ARProc{}
+	tp := NewTracerProvider(WithRawSpanLimits(SpanLimits{-1, -1, -1, -1, -1, -1}), WithSpanProcessor(pp))
+	defer func() { _ = tp.Shutdown(context.Background()) }()
+	_, span := tp.Tracer("verif").Start(context.Background(), "s")
+	kvs := []attribute.KeyValue{}
+	for i := 0; i < n; i++ {
+		kvs = append(kvs, attribute.Int("k"+strconv.Itoa(i), i))
+	}
+	for i := 0; i < dup && i < n; i++ {
+		kvs = append(kvs, attribute.Int("k"+strconv.Itoa(i), 100+i)) // duplicate key: de-duplication rewrites
+	}
+	span.SetAttributes(kvs...)
+	span.End()
+	snap, rw := pp.snap, pp.rw // what a processor legitimately holds: the exported snapshot and the span from OnStart
+	start := make(chan struct{})
+	var wg sync.WaitGroup
+	var sink atomic.Int64
+	reader := func() {
+		defer wg.Done()
+		<-start
+		for i := 0; i < 3000; i++ {
+			for _, a := range snap.Attributes() {
+				sink.Add(a.Value.AsInt64())
+			}
+		}
+	}
+	wg.Add(2)
+	go reader()
+	if conc {
+		go func() {
+			defer wg.Done()
+			<-start
+			for i := 0; i < 3000; i++ {
+				sink.Add(int64(len(rw.Attributes())))
+			}
+		}()
+	} else {
+		go reader() // control: two readers of the snapshot, nobody touches the span
+	}
+	close(start)
+	wg.Wait()
+}
+
+func c10AttrRace(n, dup, conc int) string {
+	cmd := exec.Command(os.Args[0], "-test.run", "^TestVerifC10AttrRaceChild$", "-test.count=1")
+	env := []string{}
+	for _, e := range os.Environ() {
+		if strings.HasPrefix(e, "VERIF_") || strings.HasPrefix(e, "GORACE=") {
+			continue
+		}
+		env = append(env, e)
+	}
+	cmd.Env = append(env, fmt.Sprintf("VERIF_C10_ATTRRACE=%d,%d,%d", n, dup, conc), "GORACE=halt_on_error=0")
+	type res struct {
+		out []byte
+		err error
+	}
+	ch := make(chan res, 1)
+	go func() { o, err := cmd.CombinedOutput(); ch <- res{o, err} }()
+	var r res
+	select {
+	case r = <-ch:
+	case <-time.After(120 * time.Second):
+		if cmd.Process != nil {
+			_ = cmd.Process.Kill()
+		}
+		<-ch
+		return "err"
+	}
+	o := string(r.out)
+	switch {
+	case strings.Contains(o, "WARNING: DATA RACE"):
+		if strings.Contains(o, "dedupeAttrsFromRecord") {
+			return "race"
+		}
+		return "race:other"
+	case r.err == nil && strings.Contains(o, "PASS"):
+		return "norace"
+	default:
+		return "err"
+	}
+}
+
+func TestVerifC10AttrRace(t *testing.T) {
+	out := vOpen(t)
+	defer out.Close()
+	line := func(gen string, n, dup, conc int) {
+		out.Line("attrrace %s %d %d %d => %s", gen, n, dup, conc, c10AttrRace(n, dup, conc))
+	}
+	if rp := vReplayLines(); rp != nil {
+		for _, f := range rp {
+			if f[0] != "attrrace" || len(f) < 5 {
+				continue
+			}
+			n, _ := strconv.Atoi(f[2])
+			dup, _ := strconv.Atoi(f[3])
+			conc, _ := strconv.Atoi(f[4])
+			line(f[1], n, dup, conc)
+		}
+		return
+	}
+	fixed := [][3]int{{3, 1, 1}, {3, 1, 0}, {1, 0, 1}, {0, 0, 1}, {5, 2, 1}, {4, 0, 0}}
+	r := &vRand{s: vSeed() ^ 0xf36}
+	n := vN(8)
+	for i := 0; i < n; i++ {
+		if i < len(fixed) {
+			line("fixed", fixed[i][0], fixed[i][1], fixed[i][2])
+			continue
+		}
+		k := r.Intn(9)
+		conc := 1
+		if r.Intn(4) == 0 {
+			conc = 0 // control
+		}
+		line("rnd", k, r.Intn(k+1), conc)
 	}
 }
